@@ -282,14 +282,14 @@ def run(ctx):
                     bad = 'result is not a decision tree common to all four components'
                 else:
                     G0, T, E = top
-                    okG0 = G0.op == 'fle' and G0.args[1] is zero and G0.args[0] is m[(2, 2)]
+                    okG0 = G0.op in ('fle', 'flt') and G0.args[1] is zero and G0.args[0] is m[(2, 2)]      # a tie may go either way: both branches are well conditioned there
                     pt, pe = peel(T), peel(E)
                     if not okG0 or pt is None or pe is None:
                         bad = 'top guard is %s, expected m22 <= 0 with two sub-decisions' % tm.show(G0, 0, 3)[:120]
                     else:
                         (G1, A_, B_), (G2, C_, D_) = pt, pe
-                        ok1 = G1.op == 'fle' and G1.args[1] is zero and S.eq(alg.nf(G1.args[0]), S.sub(mn[(1, 1)], mn[(0, 0)]))
-                        ok2 = G2.op == 'fle' and G2.args[1] is zero and S.eq(alg.nf(G2.args[0]), S.add(mn[(1, 1)], mn[(0, 0)]))
+                        ok1 = G1.op in ('fle', 'flt') and G1.args[1] is zero and S.eq(alg.nf(G1.args[0]), S.sub(mn[(1, 1)], mn[(0, 0)]))
+                        ok2 = G2.op in ('fle', 'flt') and G2.args[1] is zero and S.eq(alg.nf(G2.args[0]), S.add(mn[(1, 1)], mn[(0, 0)]))
                         if not ok1 or not ok2:
                             bad = 'inner guards are not m11-m00 <= 0 and m11+m00 <= 0'
                         else:
